@@ -288,6 +288,22 @@ func checkNoClobber(x *Exec, r *Rig, p concParams, recs [][]opRec, contents map[
 	}
 }
 
+// linKeyUsed: the key is present initially or named by some thread operation.
+func linKeyUsed(init LinState, recs [][]opRec, k int) bool {
+	if init[k] != absent {
+		return true
+	}
+	for _, rs := range recs {
+		for _, rc := range rs {
+			f := opFields(rc.op)
+			if len(f) > 1 && !strings.Contains(f[1], ",") && atoi(f[1]) == k {
+				return true
+			}
+		}
+	}
+	return false
+}
+
 // checkLinearizable (C02).
 func checkLinearizable(x *Exec, r *Rig, p concParams, setup []opRec, recs [][]opRec, nAtomicSetup int) {
 	lbl := "@" + p.Label
@@ -457,6 +473,18 @@ func checkLinearizable(x *Exec, r *Rig, p concParams, setup []opRec, recs [][]op
 					}
 					return []LinState{s}
 				}})
+			case "invall":
+				// not atomic across keys: one removal per key, each somewhere inside the call
+				for kk := 0; kk < linKeys; kk++ {
+					if !linKeyUsed(init, recs, kk) {
+						continue
+					}
+					kk := kk
+					ops = append(ops, LinOp{Thread: ti, Call: rc.call, Ret: rc.ret, Name: fmt.Sprintf("%s/key%d", name, kk), Apply: func(s LinState) []LinState {
+						s[kk] = absent
+						return []LinState{s}
+					}})
+				}
 			case "adv", "cleanup", "all", "keys", "values", "coldest", "hottest", "getmax", "wsize", "esize":
 				// no map effect (iteration is judged separately)
 			default:
